@@ -539,6 +539,48 @@ func suiteC16(c *Ctx) []Suite {
 			}
 			return out
 		}},
+		{Name: "vars/many-variables", Gen: func(c *Ctx) []Case {
+			// items and lists holding hundreds of variables (mixed with values): order, no
+			// repeats, nothing missing
+			var out []Case
+			counts := []int{255, 256, 257, 300, 700}
+			if c.Tier == "thorough" {
+				counts = append(counts, 1000, 4096, 65537)
+			}
+			for _, cnt := range counts {
+				for _, k := range []struct {
+					kind string
+					w    int
+				}{{"U", 2}, {"I", 8}, {"B", 1}, {"BO", 1}, {"F", 4}, {"L", 0}} {
+					n := &Node{Kind: k.kind, W: k.w}
+					perm := c.R.Perm(cnt) // names are not in position order
+					for i := 0; i < cnt; i++ {
+						if c.R.Intn(6) == 0 {
+							if k.kind == "L" {
+								n.Slots = append(n.Slots, Slot{Child: &Node{Kind: "U", W: 1, Slots: []Slot{{IsVar: true, Name: fmt.Sprintf("c%d", perm[i])}}}})
+							} else {
+								n.Slots = append(n.Slots, Slot{})
+							}
+							continue
+						}
+						n.Slots = append(n.Slots, Slot{IsVar: true, Name: fmt.Sprintf("v%d", perm[i])})
+					}
+					item := n
+					if c.R.Intn(2) == 0 {
+						item = &Node{Kind: "L", Slots: []Slot{{Child: &Node{Kind: "A", Str: []byte("x")}}, {Child: n}, {IsVar: true, Name: "tail"}}}
+					}
+					res, it := implItem(item)
+					cs := Case{Op: "item " + item.Proto(), Impl: res, Decisive: true, Nontrivial: true, Tags: []string{fmt.Sprintf("many-vars:%s:%d", k.kind, cnt)}}.fields("vars size")
+					if it != nil {
+						cs.Oracle = varsOracle(item, it)
+					} else {
+						cs.Oracle = "factory panicked on an in-domain template with many variables"
+					}
+					out = append(out, cs)
+				}
+			}
+			return out
+		}},
 		{Name: "vars/duplicate-attempts", Gen: func(c *Ctx) []Case {
 			// names reused on purpose (within a node, between siblings, between nested lists):
 			// either the factory refuses or the tree has no name twice
